@@ -159,6 +159,9 @@ LocalCls = _make_local()
 LocalPlainCls = _make_local_plain()
 DynCls = type("DynErr", (Exception,), {"__module__": "no.such.module"})
 DynBase = type("DynBaseErr", (BaseException,), {"__module__": "mon.excser"})  # name not bound in module
+DynNoModule = type("NoModuleError", (Exception,), {})
+DynNoModule.__module__ = None  # type: ignore[assignment]  # a class built at run time that claims no module at all
+from mon import shadow_errors as _shadow  # noqa: E402
 
 POOL: Dict[str, Any] = {
     "ValueError": ValueError, "KeyError": KeyError, "OSError": OSError, "FileNotFoundError": FileNotFoundError,
@@ -175,6 +178,8 @@ POOL: Dict[str, Any] = {
     "ValidationErrorLike": json.JSONDecodeError,
     "Hidden": _HiddenError, "PrivNsConflict": _errors.Conflict, "Throttled": Outer._Throttled,
     "EqErr": EqErr, "EqRaises": EqRaises, "Rebound": Rebound,
+    "ShadowConnectionError": _shadow.ConnectionError, "ShadowTimeoutError": _shadow.TimeoutError, "ShadowKeyError": _shadow.KeyError,
+    "DynNoModule": DynNoModule,
 }
 FALSY_POOL = {"Falsy": Falsy, "LenZero": LenZero}
 POOL_ALL = dict(POOL)
